@@ -604,6 +604,9 @@ pub(super) struct Req {
     pub fields: Vec<Fld>,
     /// trailing MAC length (0 = none)
     pub mac: u16,
+    /// 0 = opaque trailer (key id 42 + tags); otherwise the first four bytes of the trailer,
+    /// i.e. something that looks like an extension-field header (type << 16 | length)
+    pub mac_head: u32,
 }
 
 impl Fld {
@@ -725,6 +728,7 @@ impl Req {
             alg512: false,
             fields,
             mac: 0,
+            mac_head: 0,
         }
     }
 
@@ -744,7 +748,7 @@ impl Req {
                 .collect::<Vec<_>>()
                 .join(","),
             self.mac
-        )
+        ) + &if self.mac_head != 0 { format!("h{:08x}", self.mac_head) } else { String::new() }
     }
 
     pub(super) fn parse(s: &str) -> Option<Req> {
@@ -772,7 +776,14 @@ impl Req {
                 .map(Fld::parse)
                 .collect::<Option<Vec<_>>>()?;
         }
-        r.mac = mac.strip_prefix('m')?.parse().ok()?;
+        let mac = mac.strip_prefix('m')?;
+        match mac.split_once('h') {
+            Some((n, h)) => {
+                r.mac = n.parse().ok()?;
+                r.mac_head = u32::from_str_radix(h, 16).ok()?;
+            }
+            None => r.mac = mac.parse().ok()?,
+        }
         Some(r)
     }
 
@@ -1229,10 +1240,47 @@ pub(super) fn build_with(
     if r.mac > 0 {
         let n = r.mac as usize;
         if n >= 4 {
-            out.extend_from_slice(&0x0000_002Au32.to_be_bytes()); // key id
+            let head = if r.mac_head != 0 { r.mac_head } else { 0x0000_002A }; // key id 42
+            let off = out.len();
+            out.extend_from_slice(&head.to_be_bytes());
             let fill = tagged(0x3E, K_MAC, n - 4);
-            forbid_chunks(&mut acc, &fill);
             out.extend_from_slice(&fill);
+            // RFC 7822 framing (NTPv4): a trailer of more than 24 bytes is not a MAC; if it starts
+            // with a well-formed extension-field header it *is* one more extension field
+            let (ty, l) = ((head >> 16) as u16, (head & 0xFFFF) as usize);
+            let is_field = r.ver == 4 && r.mac_head != 0 && n > 24 && l >= 4 && l % 4 == 0 && l <= n;
+            if r.mac_head != 0 {
+                len_offsets.push(off + 2);
+            }
+            if is_field {
+                spans.push(Span {
+                    off,
+                    wire: l,
+                    ty,
+                    zone,
+                });
+                let body = out[off + 4..off + l].to_vec();
+                match ty {
+                    T_UID => acc.uids.push((body, zone, off + l)),
+                    T_COOKIE | T_PH => acc.cookie_like.push(body.len()),
+                    T_AUTH => {
+                        // a garbage authenticator: the request cannot authenticate
+                        n_auth += 1;
+                        if n_auth == 1 {
+                            auth_ok = false;
+                            auth_end = off + l;
+                        }
+                    }
+                    _ => {}
+                }
+                if ty != T_UID {
+                    forbid_chunks(&mut acc, &fill);
+                } else if l < n {
+                    forbid_chunks(&mut acc, &out[off + l..].to_vec());
+                }
+            } else {
+                forbid_chunks(&mut acc, &fill);
+            }
         } else {
             out.extend(std::iter::repeat(0xEE).take(n));
         }
@@ -1347,6 +1395,44 @@ pub(super) const RAW_TYPES: [u16; 8] = [
     T_UID, T_COOKIE, T_PH, T_DRAFT, T_PAD, T_REFREQ, T_REFRESP, T_UNKNOWN,
 ];
 
+/// MAC trailers that look like extension fields (part of G): NTPv4 requests with 0..=2 ordinary
+/// fields {identifier 32/4/0 bytes, unknown 24} followed by a trailer of every length 4..=28 that is
+/// opaque or starts with an extension-field header, type in {identifier, cookie, placeholder,
+/// authenticator, unknown} x length in {trailer length, 4, 16, 28}; NTPv3: the same trailers
+/// directly after the header. By RFC 7822 framing a trailer of <= 24 bytes is a MAC whatever it
+/// looks like; a longer one that starts with a well-formed header is one more extension field
+/// (`build` records it as such).
+pub(super) fn trailer_requests() -> Vec<Req> {
+    let pre_alpha = [Fld::Uid(32), Fld::Uid(4), Fld::Uid(0), Fld::Unk(24)];
+    let pres = words(&pre_alpha, 2);
+    let mut out = vec![];
+    for n in 4..=28u16 {
+        let mut heads: Vec<u32> = vec![0];
+        for ty in [T_UID, T_COOKIE, T_PH, T_AUTH, T_UNKNOWN] {
+            for l in [n, 4, 16, 28] {
+                let h = ((ty as u32) << 16) | l as u32;
+                if !heads.contains(&h) {
+                    heads.push(h);
+                }
+            }
+        }
+        for h in heads {
+            for (pi, pre) in pres.iter().enumerate() {
+                let mut r = Req::plain(4, pre.clone());
+                r.mac = n;
+                r.mac_head = h;
+                r.poll = POLLS[(pi + n as usize) % POLLS.len()];
+                out.push(r);
+            }
+            let mut r = Req::plain(3, vec![]);
+            r.mac = n;
+            r.mac_head = h;
+            out.push(r);
+        }
+    }
+    out
+}
+
 /// Unaligned / hand-framed extension fields (part of G, and base set of C22):
 /// * every known field type (identifier, cookie, placeholder, draft id, padding, reference-id
 ///   request and response, unknown) x body length 0..=20 (every residue mod 4; NTPv4 framing
@@ -1445,7 +1531,8 @@ pub(super) fn words(alpha: &[Fld], max_len: usize) -> Vec<Vec<Fld>> {
 /// * v5: every word of <= `max_len` symbols of `alphabet(5)` with the draft
 ///       identification appended or prepended, x tail {none, 4 junk bytes}; without any
 ///       draft identification only for words of <= 1 symbol.
-/// * the hand-framed / unaligned fields of `raw_requests()`.
+/// * the hand-framed / unaligned fields of `raw_requests()` and the extension-field-like MAC
+///   trailers of `trailer_requests()`.
 /// poll / leap bits of the request header rotate with the case index (not a product
 /// dimension). `alg512` sessions are used for every 5th word.
 pub(super) fn grammar(thorough: bool, max_len: usize) -> Vec<Req> {
@@ -1497,6 +1584,7 @@ pub(super) fn grammar(thorough: bool, max_len: usize) -> Vec<Req> {
         }
     }
     out.extend(raw_requests());
+    out.extend(trailer_requests());
     out
 }
 
